@@ -261,10 +261,38 @@ class PlanJoinTablesQuery:
             elif isinstance(node, (BinaryOperation, BetweenOperation)):
                 self.check_node_condition(node)
 
+        where_conjuncts = []
+
+        def _collect_conjuncts(node):
+            if isinstance(node, BinaryOperation) and node.op == 'and':
+                for arg in node.args:
+                    _collect_conjuncts(arg)
+            else:
+                where_conjuncts.append(node)
+
         if query.where is not None:
             _check_conjuncts(query.where)
+            _collect_conjuncts(query.where)
 
         self.query_context['binary_ops'] = binary_ops
+        self.query_context['where_conjuncts'] = where_conjuncts
+
+    def where_is_applied_before_join(self, item, conditions):
+        # is every conjunct of WHERE evaluated in the fetch of this table (or is it an argument of a model)?
+        # otherwise rows that the LIMIT cuts off could have been the ones that pass the rest of WHERE
+        applied = set()
+        for cond in conditions:
+            if hasattr(cond, '_orig_node'):
+                applied.add(id(cond._orig_node))
+        for table_info in self.tables:
+            if table_info.predictor_info is not None:
+                for cond in table_info.conditions:
+                    if hasattr(cond, '_orig_node'):
+                        applied.add(id(cond._orig_node))
+        for node in self.query_context.get('where_conjuncts', []):
+            if id(node) not in applied:
+                return False
+        return True
 
     def check_use_limit(self, query_in, join_sequence):
         # use limit for first table?
@@ -450,6 +478,10 @@ class PlanJoinTablesQuery:
             conditions = [cond for cond in conditions if not self.filter_accepts_null(cond)]
 
         conditions += self.get_filters_from_join_conditions(item)
+
+        if self.query_context['use_limit'] and not self.where_is_applied_before_join(item, conditions):
+            # a part of WHERE is checked after the join: the first rows of this table are not the first rows of the result
+            self.query_context['use_limit'] = False
 
         if self.query_context['use_limit']:
             order_by = None
